@@ -654,6 +654,30 @@ func c17Generate(rng *verifkit.Rand) *c17Case {
 			}
 		}
 	}
+	// occasionally a long chain link -> link -> ... -> file|dir (up to 6 hops)
+	if total > 0 && rng.Chance(1, 12) {
+		var ends []int
+		for _, o := range c.Nodes {
+			if o.ID != 0 && (o.Kind == "file" || o.Kind == "dir") {
+				ends = append(ends, o.ID)
+			}
+		}
+		if len(ends) > 0 {
+			prev := ends[rng.Intn(len(ends))]
+			cls := "chain"
+			for k := rng.Range(3, 6); k > 0; k-- {
+				n := addNode(pickDir(3), "link")
+				n.Link = &c17Link{To: "node", Node: prev, Abs: rng.Chance(1, 3), Class: cls}
+				if !c.genCheck() {
+					// would exceed the hop/size budget or close a cycle: make it a file
+					n.Kind, n.Link = "file", nil
+					n.Size, n.Seed = fileSize(), rng.Uint64()
+					break
+				}
+				prev = n.ID
+			}
+		}
+	}
 	if bad {
 		c.genBad(rng)
 	}
